@@ -45,7 +45,7 @@ fn count_forms(id: u32, full: bool) -> Vec<(String, Vec<Seg>)> {
 
 fn ordered_clauses(pos: usize, full: bool) -> Vec<(String, ClauseSpec)> {
     // 6 = the disjunctive form `(2) | (1)`: an ordered call may match a later alternative
-    let masks: &[u8] = if full { &[7, 1, 2, 6] } else { &[7, 1, 6] };
+    let masks: &[u8] = &[7, 1, 6];
     let mut out = vec![];
     for m in [M::C, M::E] {
         for mask in masks {
@@ -274,7 +274,7 @@ fn main() {
         J::obj()
             .set("ordered_clauses_max", if quick { 2 } else { 3 })
             .set("methods", "O::c, O::e (ordered), A::a (unordered)")
-            .set("predicates", "any, {0}, {1}")
+            .set("predicates", "any, {0}, the disjunctive form (2) | (1)")
             .set("counts", "implicit once, n_times(0..3), chains inside a range (n_times(k).then()...)")
             .set("exploration", "every model-accepted prefix extended by every call of {c(0),c(1),e(0),e(1),a(0)}; deviating calls checked, not extended")
             .set("unordered_clause", "absent, or inserted at every position (open-ended and exactly quantified)"),
